@@ -140,6 +140,8 @@ def build_leaf(B, inst, node):
         tok = "%s.i%d" % (inst.token, inst.n)
         inst.n += 1
         return B.item(inst, tok, node[1] % B.spec["kinds"], node[2])
+    if k == "dd":
+        return B.dd(inst, node[1])
     if k == "const":
         return B.const(inst, node[1])
     if k == "errfut":
